@@ -1,3 +1,5 @@
+// F23/F24/F26 native demos (public API): copy to noodles-vcf/tests/.  Before 87b3a73 / fd976a5 the first and third test panic
+// ("end byte index N is out of bounds"); the second (F24, known finding, not fixed) fails at capacity 1.
 use std::io::BufReader;
 
 use noodles_vcf as vcf;
@@ -27,5 +29,18 @@ fn utf8_character_split_across_buffer_refills() {
         let r = reader.read_record(&mut b);
         assert!(r.is_ok(), "capacity {cap}: {:?}", r);
         assert_eq!(a, b);
+    }
+}
+
+#[test]
+fn cr_at_end_of_info_then_empty_samples() {
+    let data = b"sq0\t1\t.\tA\tC\t.\tPASS\tX\r\t\n";
+    let mut reader = vcf::io::Reader::new(&data[..]);
+    let mut record = vcf::Record::default();
+    let r = reader.read_record(&mut record);
+    println!("read: {:?}", r);
+    if r.is_ok() {
+        println!("info: {:?}", record.info());
+        println!("samples: {:?}", record.samples());
     }
 }
